@@ -264,4 +264,178 @@ theorem pm2_suffix {lastT : Int} {la lb : List Sample} (hs : SSorted la) (hsuf :
       · intro z hz
         have := ssorted_head_lt hs z hz; omega
 
+/-! ### the timestamps of the merge depend only on what `Seek` can observe of the inputs -/
+
+theorem dropLt_dropLt (j k : Int) (l : List Sample) :
+    dropLt k (dropLt j l) = dropLt (if j ≤ k then k else j) l := by
+  induction l with
+  | nil => simp
+  | cons a l ih =>
+    by_cases hj : a.t < j
+    · rw [dropLt_cons_lt hj, ih]
+      have : a.t < (if j ≤ k then k else j) := by split <;> omega
+      rw [dropLt_cons_lt this]
+    · have hj' : j ≤ a.t := by omega
+      rw [dropLt_cons_ge hj']
+      by_cases hk : a.t < k
+      · have : a.t < (if j ≤ k then k else j) := by split <;> omega
+        rw [dropLt_cons_lt hk, dropLt_cons_lt this]
+        -- below the head nothing was dropped by `j`, so dropping by `k ≥ j` is the same
+        have hjk : j ≤ k := by omega
+        simp only [hjk, if_true]
+      · have hk' : k ≤ a.t := by omega
+        have : (if j ≤ k then k else j) ≤ a.t := by split <;> omega
+        rw [dropLt_cons_ge hk', dropLt_cons_ge this]
+
+/-- the timestamp a reader finds after `Seek(k)` -/
+def seekT (k : Int) (l : List Sample) : Option Int := (dropLt k l).head?.map (·.t)
+
+/-- two sample lists that no sequence of `Seek` calls can tell apart by timestamps -/
+def ObsEq (la ca : List Sample) : Prop := ∀ k, seekT k la = seekT k ca
+
+theorem ObsEq.refl (l : List Sample) : ObsEq l l := fun _ => rfl
+theorem ObsEq.symm {a b : List Sample} (h : ObsEq a b) : ObsEq b a := fun k => (h k).symm
+theorem ObsEq.trans {a b c : List Sample} (h1 : ObsEq a b) (h2 : ObsEq b c) : ObsEq a c :=
+  fun k => (h1 k).trans (h2 k)
+
+theorem ObsEq.dropLt {la ca : List Sample} (h : ObsEq la ca) (j : Int) :
+    ObsEq (dropLt j la) (dropLt j ca) := by
+  intro k
+  unfold seekT
+  rw [dropLt_dropLt, dropLt_dropLt]
+  exact h _
+
+theorem ObsEq.nil_right {ca : List Sample} (h : ObsEq [] ca) : ca = [] := by
+  cases ca with
+  | nil => rfl
+  | cons y ca =>
+    have := h y.t
+    simp [seekT, dropLt_cons_ge (Int.le_refl y.t)] at this
+
+theorem ObsEq.cons_left {x : Sample} {ta ca : List Sample} (h : ObsEq (x :: ta) ca) :
+    ∃ y ca', ca = y :: ca' ∧ y.t = x.t := by
+  cases ca with
+  | nil => exact absurd (ObsEq.nil_right h.symm) (by simp)
+  | cons y ca' =>
+    refine ⟨y, ca', rfl, ?_⟩
+    have := h (if x.t ≤ y.t then x.t else y.t)
+    have h1 : (if x.t ≤ y.t then x.t else y.t) ≤ x.t := by split <;> omega
+    have h2 : (if x.t ≤ y.t then x.t else y.t) ≤ y.t := by split <;> omega
+    simp only [seekT, dropLt_cons_ge h1, dropLt_cons_ge h2, List.head?_cons, Option.map_some,
+      Option.some.injEq] at this
+    exact this.symm
+
+def tsOf (l : List Sample) : List Int := l.map (·.t)
+
+/-- lists with the same timestamps are observationally equal -/
+theorem obsEq_of_tsOf {la ca : List Sample} (h : tsOf la = tsOf ca) : ObsEq la ca := by
+  induction la generalizing ca with
+  | nil =>
+    cases ca with
+    | nil => exact ObsEq.refl _
+    | cons y ca => simp [tsOf] at h
+  | cons x ta ih =>
+    cases ca with
+    | nil => simp [tsOf] at h
+    | cons y ca' =>
+      simp only [tsOf, List.map_cons, List.cons.injEq] at h
+      intro k
+      unfold seekT
+      by_cases hk : x.t < k
+      · rw [dropLt_cons_lt hk, dropLt_cons_lt (by omega)]
+        exact ih h.2 k
+      · rw [dropLt_cons_ge (by omega), dropLt_cons_ge (by omega)]
+        simp [h.1]
+
+/-- an extra sample at the end that does not lie after all the others is never found -/
+theorem obsEq_append_dup {l : List Sample} {d : Sample} (h : ∃ y ∈ l, d.t ≤ y.t) :
+    ObsEq l (l ++ [d]) := by
+  intro k
+  unfold seekT
+  induction l with
+  | nil => obtain ⟨y, hy, _⟩ := h; simp at hy
+  | cons a l ih =>
+    by_cases hk : a.t < k
+    · rw [List.cons_append, dropLt_cons_lt hk, dropLt_cons_lt hk]
+      by_cases hex : ∃ y ∈ l, d.t ≤ y.t
+      · exact ih hex
+      · -- the bound is `a` itself: everything after it, and `d`, is before `k`… only `d` matters
+        obtain ⟨y, hy, hdy⟩ := h
+        rcases List.mem_cons.mp hy with rfl | hy
+        · -- d.t ≤ a.t < k
+          have hl : ∀ z ∈ l, z.t < d.t := by
+            intro z hz
+            have : ¬ d.t ≤ z.t := fun hc => hex ⟨z, hz, hc⟩
+            omega
+          have hdrop : ∀ (m : List Sample), (∀ z ∈ m, z.t < k) → dropLt k m = [] := by
+            intro m hm
+            induction m with
+            | nil => rfl
+            | cons b m ihm =>
+              rw [dropLt_cons_lt (hm b (by simp))]
+              exact ihm (fun z hz => hm z (by simp [hz]))
+          rw [hdrop l (fun z hz => by have := hl z hz; omega),
+            hdrop (l ++ [d]) (by
+              intro z hz
+              rcases List.mem_append.mp hz with hz | hz
+              · have := hl z hz; omega
+              · simp at hz; subst hz; omega)]
+        · exact absurd ⟨y, hy, hdy⟩ hex
+    · rw [List.cons_append, dropLt_cons_ge (by omega), dropLt_cons_ge (by omega)]
+      rfl
+
+/-- **The merge's timestamps only depend on the observable timestamps of its inputs.** -/
+theorem pm2_obsEq {lastT : Int} {la lb ca cb : List Sample} (ha : ObsEq la ca) (hb : ObsEq lb cb) :
+    tsOf (pm2 lastT la lb) = tsOf (pm2 lastT ca cb) := by
+  fun_induction pm2 lastT la lb generalizing ca cb with
+  | case1 =>
+    rw [ObsEq.nil_right ha, ObsEq.nil_right hb]
+    simp [pm2]
+  | case2 lastT x ta ih =>
+    obtain ⟨y, ca', rfl, hy⟩ := ObsEq.cons_left ha
+    rw [ObsEq.nil_right hb, pm2]
+    simp only [tsOf, List.map_cons, hy]
+    congr 1
+    have h1 := ha.dropLt (x.t + 1)
+    rw [dropLt_cons_lt (show x.t < x.t + 1 by omega), dropLt_cons_lt (show y.t < x.t + 1 by omega)] at h1
+    have := ih (ca := dropLt (x.t + 1) ca') (cb := []) h1 (ObsEq.refl _)
+    simp only [tsOf] at this
+    exact this
+  | case3 lastT y tb ih =>
+    obtain ⟨z, cb', rfl, hz⟩ := ObsEq.cons_left hb
+    rw [ObsEq.nil_right ha, pm2]
+    simp only [tsOf, List.map_cons, hz]
+    congr 1
+    have h1 := hb.dropLt (y.t + 1)
+    rw [dropLt_cons_lt (show y.t < y.t + 1 by omega), dropLt_cons_lt (show z.t < y.t + 1 by omega)] at h1
+    have := ih (ca := []) (cb := dropLt (y.t + 1) cb') (ObsEq.refl _) h1
+    simp only [tsOf] at this
+    exact this
+  | case4 lastT x ta y tb hle ih =>
+    obtain ⟨x', ca', rfl, hx'⟩ := ObsEq.cons_left ha
+    obtain ⟨y', cb', rfl, hy'⟩ := ObsEq.cons_left hb
+    have hle' : x'.t ≤ y'.t := by omega
+    rw [pm2, if_pos hle']
+    simp only [tsOf, List.map_cons, hx']
+    congr 1
+    have h1 := ha.dropLt (x.t + 1)
+    rw [dropLt_cons_lt (show x.t < x.t + 1 by omega), dropLt_cons_lt (show x'.t < x.t + 1 by omega)] at h1
+    have h2 := hb.dropLt (x.t + 1 + pen lastT x.t)
+    have := ih h1 h2
+    simp only [tsOf] at this
+    exact this
+  | case5 lastT x ta y tb hle ih =>
+    obtain ⟨x', ca', rfl, hx'⟩ := ObsEq.cons_left ha
+    obtain ⟨y', cb', rfl, hy'⟩ := ObsEq.cons_left hb
+    have hle' : ¬ x'.t ≤ y'.t := by omega
+    rw [pm2, if_neg hle']
+    simp only [tsOf, List.map_cons, hy']
+    congr 1
+    have h1 := ha.dropLt (y.t + 1 + pen lastT y.t)
+    have h2 := hb.dropLt (y.t + 1)
+    rw [dropLt_cons_lt (show y.t < y.t + 1 by omega), dropLt_cons_lt (show y'.t < y.t + 1 by omega)] at h2
+    have := ih h1 h2
+    simp only [tsOf] at this
+    exact this
+
 end Thanos.Dedup
